@@ -690,7 +690,9 @@ func (u *Upstream) resume(newConn *wire.ClientConn) error {
 	if !u.state.Is(streamStatusResuming) {
 		return fmt.Errorf("invalid state want[%v] but[%v]", streamStatusResuming, u.state.Current())
 	}
+	u.mu.Lock()
 	u.wireConn = newConn
+	u.mu.Unlock()
 
 	var resp *message.UpstreamResumeResponse
 	var resErr error
